@@ -45,7 +45,9 @@ def _lines(text):
     """Lines of a text; the final line may or may not be terminated."""
     if text == '':
         return []
-    lines = text.split('\n')
+    # universal newlines, as any reader that opens the file in text mode sees
+    # it: a bare carriage return ends a line too
+    lines = re.split(r'\r\n|\r|\n', text)
     if lines[-1] == '':
         lines.pop()
     return lines
